@@ -4,7 +4,7 @@
 (* (C15).  One ndjson line per history; every event is one completed call:*)
 (*   act     "new_evaluator" | "evaluate" | "query_keys" | "new_aggregator" | "save" *)
 (*   e, c    evaluator index, configuration id        inp  input id        *)
-(*   sgt, ra, log, pool   the options of the call (Objects.tla)            *)
+(*   sgt, ra, log, vb, pool   the options of the call (Objects.tla)        *)
 (*   out     "ok" | "raise"                                                *)
 (*   res     digest of the reported metrics (evaluate)                     *)
 (*   inb, ina  digests of the caller's arrays before / after the call      *)
@@ -35,7 +35,7 @@ Consume ==
     /\ O!Next
     /\ LET n == Ev[l + 1] IN
        /\ last'.act = n.act /\ last'.e = n.e /\ last'.c = n.c /\ last'.inp = n.inp
-       /\ last'.sgt = n.sgt /\ last'.ra = n.ra /\ last'.log = n.log /\ last'.pool = n.pool
+       /\ last'.sgt = n.sgt /\ last'.ra = n.ra /\ last'.log = n.log /\ last'.vb = n.vb /\ last'.pool = n.pool
        /\ memo' = IF n.act = "evaluate" /\ n.out = "ok" /\ ~\E m \in memo : m[1] = n.c /\ m[2] = n.inp
                   THEN memo \cup {<<n.c, n.inp, n.res>>} ELSE memo
        /\ keys0' = keys0 \cup {<<k.c, k.k>> : k \in {x \in Range(n.keys) : ~\E y \in keys0 : y[1] = x.c}}
